@@ -12,6 +12,7 @@ import PenneModel.Decls.Imports
 import PenneModel.Types.ValueType
 import PenneModel.Decls.Order
 import PenneModel.Types.Ops
+import PenneModel.Mut.Model
 /-
   Model driver: one request per line on stdin (`OP<TAB>payload`), one answer per line on stdout.
   Only model files are imported (no Mathlib, no proof files), so this links as a native executable.
@@ -190,6 +191,21 @@ def handle (op payload : String) : String :=
       | some ids, some edges =>
         "cyclical=" ++ ",".intercalate ((Order.cyclical edges).map toString) ++ " n=" ++ toString ids.length ++ " hascycle=" ++
           (if Order.hasCycle edges then "1" else "0")
+      | _, _ => "bad-request"
+    | _ => "bad-request"
+  | "mut" =>
+    -- (write <base> <step>*)
+    match Sexp.parse payload with
+    | some (.list (.atom "write" :: .atom base :: steps)) =>
+      let base? : Option Mut.Base := match base with
+        | "variable" => some .variable | "viewVariable" => some .viewVariable | "constant" => some .constant
+        | "parameter" => some .parameter | _ => none
+      let stepOf : Sexp → Option Mut.Step
+        | .atom "element" => some .element | .atom "member" => some .member | .atom "desliceByView" => some .desliceByView
+        | .atom "desliceByPointer" => some .desliceByPointer | .atom "autoderef" => some .autoderef
+        | .atom "autoview" => some .autoview | _ => none
+      match base?, steps.mapM stepOf with
+      | some b, some ss => toString (Mut.writeVerdict b ss)
       | _, _ => "bad-request"
     | _ => "bad-request"
   | "optype" =>
